@@ -32,8 +32,11 @@ func CheckRootSchema(rootSchema *schema.Schema) {
 		c.checkNode(rootSchema.RootNode(), rootSchema.TypesList())
 	}
 
-	for name, typ := range rootSchema.TypesList() {
-		c.checkType(name, typ, rootSchema.TypesList())
+	// In the order of the names: which of several invalid types is reported must
+	// not depend on the map iteration order.
+	types := rootSchema.TypesList()
+	for _, name := range rootSchema.TypeNames() {
+		c.checkType(name, types[name], types)
 	}
 }
 
